@@ -35,7 +35,7 @@ CFG = {
     "theorems": [T + n for n in [
         "C10_structure", "C10_map_vertices", "C10_vertex_i", "C10_nil_identity", "C10_error_no_panic",
         "C10_pure", "C10_pure_last", "C10_pure_states", "C10_history_state", "C10_step_state_eq",
-        "C10_no_index_fault", "C10_no_panic", "C10_input_unchanged_partial",
+        "C10_no_index_fault", "C10_no_panic", "C10_input_unchanged",
         "C10_init_idempotent", "C10_init_frame", "C10_CoreOK_ctors", "C10_pure_ctors",
     ]] + [T + "tie_" + t for t in TIES] + [T + n for n in [
     ]],
